@@ -5,16 +5,19 @@
 package keeper
 
 //@ func (Keeper).GetPrice
+//@ vars (keeper.Keeper).GetPrice: k=github.com/irismod/service/keeper.Keeper#0 ctx=github.com/cosmos/cosmos-sdk/types.Context#0 consumer=github.com/cosmos/cosmos-sdk/types.AccAddress#0 binding=github.com/irismod/service/types.ServiceBinding#0 pricing=github.com/irismod/service/types.Pricing#0 discountByTime=github.com/cosmos/cosmos-sdk/types.Dec#0 discountByVolume=github.com/cosmos/cosmos-sdk/types.Dec#1 baseDenom=string#0 basePrice=github.com/cosmos/cosmos-sdk/types.Int#0 price=github.com/cosmos/cosmos-sdk/types.Dec#2
 //@ props C07 C01
 
 //@ ensures fee_is_priceOf: result == priceCoins(raw, ctxTime(ctx), consumer, binding.ServiceName, binding.Provider)
 
 //@ func (Keeper).getMinDeposit
+//@ vars (keeper.Keeper).getMinDeposit: k=github.com/irismod/service/keeper.Keeper#0 ctx=github.com/cosmos/cosmos-sdk/types.Context#0 pricing=github.com/irismod/service/types.Pricing#0 minDepositMultiple=github.com/cosmos/cosmos-sdk/types.Int#0 minDepositParam=github.com/cosmos/cosmos-sdk/types.Coins#0 baseDenom=string#0 price=github.com/cosmos/cosmos-sdk/types.Int#1 minDeposit=github.com/cosmos/cosmos-sdk/types.Coins#1
 //@ props C14 C04
 //@ requires price_nonneg: amt(pricing.Price, baseDenom) >= 0
 //@ ensures is_minDepositOf: result == minDepositOf(pricing)
 
 //@ func (Keeper).RefundDeposit
+//@ vars (keeper.Keeper).RefundDeposit: k=github.com/irismod/service/keeper.Keeper#0 ctx=github.com/cosmos/cosmos-sdk/types.Context#0 serviceName=string#0 provider=github.com/cosmos/cosmos-sdk/types.AccAddress#0 owner=github.com/cosmos/cosmos-sdk/types.AccAddress#1 binding=github.com/irismod/service/types.ServiceBinding#0 found=bool#0 refundableTime=time.Time#0 currentTime=time.Time#1 err=error#0
 //@ props C03 C05
 //@ modifies raw, bal
 //@ preserves wf: WF(raw)
@@ -33,10 +36,12 @@ package keeper
 //@ ensures error_changes_nothing: err != NoErr ==> raw == old(raw) && bal == old(bal)
 
 //@ func (Keeper).validateDeposit
+//@ vars (keeper.Keeper).validateDeposit: k=github.com/irismod/service/keeper.Keeper#0 ctx=github.com/cosmos/cosmos-sdk/types.Context#0 deposit=github.com/cosmos/cosmos-sdk/types.Coins#0 baseDenom=string#0 token=github.com/irismod/service/types.TokenI#0 err=error#0
 //@ props C20 C03
 //@ ensures one_coin: err == NoErr ==> len(deposit) == 1
 
 //@ func (Keeper).DisableServiceBinding
+//@ vars (keeper.Keeper).DisableServiceBinding: k=github.com/irismod/service/keeper.Keeper#0 ctx=github.com/cosmos/cosmos-sdk/types.Context#0 serviceName=string#0 provider=github.com/cosmos/cosmos-sdk/types.AccAddress#0 owner=github.com/cosmos/cosmos-sdk/types.AccAddress#1 binding=github.com/irismod/service/types.ServiceBinding#0 found=bool#0
 //@ props C03 C05 C15
 //@ modifies raw
 //@ preserves wf: WF(raw)
@@ -48,6 +53,7 @@ package keeper
 //@ ensures error_changes_nothing: err != NoErr ==> raw == old(raw)
 
 //@ func (Keeper).EnableServiceBinding
+//@ vars (keeper.Keeper).EnableServiceBinding: k=github.com/irismod/service/keeper.Keeper#0 ctx=github.com/cosmos/cosmos-sdk/types.Context#0 serviceName=string#0 provider=github.com/cosmos/cosmos-sdk/types.AccAddress#0 deposit=github.com/cosmos/cosmos-sdk/types.Coins#0 owner=github.com/cosmos/cosmos-sdk/types.AccAddress#1 binding=github.com/irismod/service/types.ServiceBinding#0 found=bool#0 err=error#0 minDeposit=github.com/cosmos/cosmos-sdk/types.Coins#1 err=error#1
 //@ props C03 C05 C14 C15
 //@ modifies raw, bal
 //@ preserves wf: WF(raw)
@@ -63,6 +69,7 @@ package keeper
 //@ ensures error_changes_nothing: err != NoErr ==> raw == old(raw) && bal == old(bal)
 
 //@ func (Keeper).AddServiceBinding
+//@ vars (keeper.Keeper).AddServiceBinding: k=github.com/irismod/service/keeper.Keeper#0 ctx=github.com/cosmos/cosmos-sdk/types.Context#0 serviceName=string#0 provider=github.com/cosmos/cosmos-sdk/types.AccAddress#0 deposit=github.com/cosmos/cosmos-sdk/types.Coins#0 pricing=string#1 qos=uint64#0 options=string#2 owner=github.com/cosmos/cosmos-sdk/types.AccAddress#1 found=bool#0 found=bool#1 currentOwner=github.com/cosmos/cosmos-sdk/types.AccAddress#2 found=bool#2 err=error#0 maxReqTimeout=int64#0 err=error#1 parsedPricing=github.com/irismod/service/types.Pricing#0 err=error#2 err=error#3 minDeposit=github.com/cosmos/cosmos-sdk/types.Coins#1 err=error#4 available=bool#3 disabledTime=time.Time#0 svcBinding=github.com/irismod/service/types.ServiceBinding#0
 //@ props C03 C05 C14 C15 C07
 //@ modifies raw, bal
 //@ preserves wf: WF(raw)
@@ -80,6 +87,7 @@ package keeper
 //@ ensures error_changes_nothing: err != NoErr ==> raw == old(raw) && bal == old(bal)
 
 //@ func (Keeper).UpdateServiceBinding
+//@ vars (keeper.Keeper).UpdateServiceBinding: k=github.com/irismod/service/keeper.Keeper#0 ctx=github.com/cosmos/cosmos-sdk/types.Context#0 serviceName=string#0 provider=github.com/cosmos/cosmos-sdk/types.AccAddress#0 deposit=github.com/cosmos/cosmos-sdk/types.Coins#0 pricing=string#1 qos=uint64#0 options=string#2 owner=github.com/cosmos/cosmos-sdk/types.AccAddress#1 binding=github.com/irismod/service/types.ServiceBinding#0 found=bool#0 updated=bool#1 maxReqTimeout=int64#0 err=error#0 parsedPricing=github.com/irismod/service/types.Pricing#0 err=error#1 err=error#2 minDeposit=github.com/cosmos/cosmos-sdk/types.Coins#1 err=error#3
 //@ props C03 C05 C14 C15 C07
 //@ modifies raw, bal
 //@ preserves wf: WF(raw)
@@ -98,6 +106,7 @@ package keeper
 //@ ensures [C05] error_moves_no_coins: err != NoErr ==> bal == old(bal)
 
 //@ func (Keeper).Slash
+//@ vars (keeper.Keeper).Slash: k=github.com/irismod/service/keeper.Keeper#0 ctx=github.com/cosmos/cosmos-sdk/types.Context#0 requestID=github.com/tendermint/tendermint/libs/bytes.HexBytes#0 request=github.com/irismod/service/types.Request#0 binding=github.com/irismod/service/types.ServiceBinding#0 slashFraction=github.com/cosmos/cosmos-sdk/types.Dec#0 baseDenom=string#0 depositAmt=github.com/cosmos/cosmos-sdk/types.Int#0 slashedAmt=github.com/cosmos/cosmos-sdk/types.Int#1 slashedCoins=github.com/cosmos/cosmos-sdk/types.Coins#0 deposit=github.com/cosmos/cosmos-sdk/types.Coins#1 hasNeg=bool#0 err=error#0 minDeposit=github.com/cosmos/cosmos-sdk/types.Coins#2
 //@ props C04 C03 C14
 //@ modifies raw, bal, supply
 //@ preserves wf: WF(raw)
@@ -118,6 +127,7 @@ package keeper
 //@      canPay(old(bal), depositAcc, slashBurn(old(raw), requestID)))
 
 //@ func (Keeper).GetExchangedPrice
+//@ vars (keeper.Keeper).GetExchangedPrice: k=github.com/irismod/service/keeper.Keeper#0 ctx=github.com/cosmos/cosmos-sdk/types.Context#0 consumer=github.com/cosmos/cosmos-sdk/types.AccAddress#0 binding=github.com/irismod/service/types.ServiceBinding#0 pricing=github.com/irismod/service/types.Pricing#0 discountByTime=github.com/cosmos/cosmos-sdk/types.Dec#0 discountByVolume=github.com/cosmos/cosmos-sdk/types.Dec#1 baseDenom=string#0 rawDenom=string#1 rawPrice=github.com/cosmos/cosmos-sdk/types.Int#0 price=github.com/cosmos/cosmos-sdk/types.Dec#2 realPrice=github.com/cosmos/cosmos-sdk/types.Dec#3 exchangeRateSvc=*github.com/irismod/service/types.ModuleService#0 exist=bool#0 inputBody=string#2 input=string#3 err=error#0 result=string#4 output=string#5 code=string#6 msg=string#7 outputBody=string#8 err=error#1 rate=github.com/cosmos/cosmos-sdk/types.Dec#4 err=error#2
 //@ props C07 C01 C06
 //@ requires has_price: len(pricingOf(raw, binding.ServiceName, binding.Provider).Price) >= 1
 //@ ensures [C07,C01] charged_price_is_the_fee: err == NoErr && pricingOf(raw, binding.ServiceName, binding.Provider).Price[0].Denom == baseDenom
@@ -126,12 +136,14 @@ package keeper
 
 // ---------------------------------------------------------------- request-context lifecycle (C09, C05, C10, C11)
 //@ func (Keeper).CheckAuthority
+//@ vars (keeper.Keeper).CheckAuthority: k=github.com/irismod/service/keeper.Keeper#0 ctx=github.com/cosmos/cosmos-sdk/types.Context#0 consumer=github.com/cosmos/cosmos-sdk/types.AccAddress#0 requestContextID=github.com/tendermint/tendermint/libs/bytes.HexBytes#0 checkModule=bool#0 requestContext=github.com/irismod/service/types.RequestContext#0 found=bool#1
 //@ props C05 C09
 //@ ensures [C05] only_consumer: err == NoErr ==> ctxFound(raw, requestContextID) && addrEq(consumer, ctxOf(raw, requestContextID).Consumer)
 //@ ensures [C05] never_a_module_context: err == NoErr && checkModule ==> len(ctxOf(raw, requestContextID).ModuleName) == 0
 //@ ensures complete: ctxFound(raw, requestContextID) && addrEq(consumer, ctxOf(raw, requestContextID).Consumer) && (!checkModule || len(ctxOf(raw, requestContextID).ModuleName) == 0) ==> err == NoErr
 
 //@ func (Keeper).PauseRequestContext
+//@ vars (keeper.Keeper).PauseRequestContext: k=github.com/irismod/service/keeper.Keeper#0 ctx=github.com/cosmos/cosmos-sdk/types.Context#0 requestContextID=github.com/tendermint/tendermint/libs/bytes.HexBytes#0 consumer=github.com/cosmos/cosmos-sdk/types.AccAddress#0 requestContext=github.com/irismod/service/types.RequestContext#0 found=bool#0 err=error#0
 //@ preserves [C01,C02,C16,C11] pending_requests_stay_well_formed: actInv(raw)
 //@ props C09 C05
 //@ preserves [C10] never_more_batches_than_the_largest_total: cadInv(raw, ghostMaxTot)
@@ -145,6 +157,7 @@ package keeper
 //@ ensures error_changes_nothing: err != NoErr ==> raw == old(raw)
 
 //@ func (Keeper).StartRequestContext
+//@ vars (keeper.Keeper).StartRequestContext: k=github.com/irismod/service/keeper.Keeper#0 ctx=github.com/cosmos/cosmos-sdk/types.Context#0 requestContextID=github.com/tendermint/tendermint/libs/bytes.HexBytes#0 consumer=github.com/cosmos/cosmos-sdk/types.AccAddress#0 requestContext=github.com/irismod/service/types.RequestContext#0 found=bool#0 err=error#0
 //@ preserves [C01,C02,C16,C11] pending_requests_stay_well_formed: actInv(raw)
 //@ props C09 C05 C10 C11 C16 C08 C04 C02 C01
 //@ requires [C10] never_more_batches_than_the_largest_total: cadInv(raw, ghostMaxTot)
@@ -165,6 +178,7 @@ package keeper
 //@ ensures error_changes_nothing: err != NoErr ==> raw == old(raw)
 
 //@ func (Keeper).KillRequestContext
+//@ vars (keeper.Keeper).KillRequestContext: k=github.com/irismod/service/keeper.Keeper#0 ctx=github.com/cosmos/cosmos-sdk/types.Context#0 requestContextID=github.com/tendermint/tendermint/libs/bytes.HexBytes#0 consumer=github.com/cosmos/cosmos-sdk/types.AccAddress#0 requestContext=github.com/irismod/service/types.RequestContext#0 found=bool#0 err=error#0
 //@ preserves [C01,C02,C16,C11] pending_requests_stay_well_formed: actInv(raw)
 //@ props C09 C05
 //@ preserves [C10] never_more_batches_than_the_largest_total: cadInv(raw, ghostMaxTot)
@@ -178,6 +192,7 @@ package keeper
 //@ ensures error_changes_nothing: err != NoErr ==> raw == old(raw)
 
 //@ func (Keeper).UpdateRequestContext
+//@ vars (keeper.Keeper).UpdateRequestContext: k=github.com/irismod/service/keeper.Keeper#0 ctx=github.com/cosmos/cosmos-sdk/types.Context#0 requestContextID=github.com/tendermint/tendermint/libs/bytes.HexBytes#0 providers=[]github.com/cosmos/cosmos-sdk/types.AccAddress#0 respThreshold=uint32#0 serviceFeeCap=github.com/cosmos/cosmos-sdk/types.Coins#0 timeout=int64#0 repeatedFreq=uint64#0 repeatedTotal=int64#1 consumer=github.com/cosmos/cosmos-sdk/types.AccAddress#0 requestContext=github.com/irismod/service/types.RequestContext#0 found=bool#0 err=error#0 err=error#1 err=error#2 maxRequestTimeout=int64#2
 //@ preserves [C01,C02,C16,C11] pending_requests_stay_well_formed: actInv(raw)
 //@ props C09 C05 C10
 //@ requires [C10] never_more_batches_than_the_largest_total: cadInv(raw, ghostMaxTot)
@@ -203,6 +218,7 @@ package keeper
 
 // ---------------------------------------------------------------- earned fees (C13, C01)
 //@ func (Keeper).GetEarnedFees
+//@ vars (keeper.Keeper).GetEarnedFees: k=github.com/irismod/service/keeper.Keeper#0 ctx=github.com/cosmos/cosmos-sdk/types.Context#0 provider=github.com/cosmos/cosmos-sdk/types.AccAddress#0 fees=github.com/cosmos/cosmos-sdk/types.Coins#0 found=bool#0 store=github.com/cosmos/cosmos-sdk/types.KVStore#0 iterator=github.com/cosmos/cosmos-sdk/types.Iterator#0 balance=github.com/cosmos/cosmos-sdk/types.Coin#0
 //@ props C13 C17
 //@ loop 0 invariant pos_in_range: 0 <= iterator_pos && iterator_pos <= itCount(iterator_snap, iterator_pfx)
 //@ loop 0 invariant sum_so_far: forall d Str :: amt(fees, d) == sumIt(iterator_snap, iterator_pfx, iterator_pos, d)
@@ -210,6 +226,7 @@ package keeper
 //@ ensures found == true
 
 //@ func (Keeper).DeleteEarnedFees
+//@ vars (keeper.Keeper).DeleteEarnedFees: k=github.com/irismod/service/keeper.Keeper#0 ctx=github.com/cosmos/cosmos-sdk/types.Context#0 provider=github.com/cosmos/cosmos-sdk/types.AccAddress#0 store=github.com/cosmos/cosmos-sdk/types.KVStore#0 iterator=github.com/cosmos/cosmos-sdk/types.Iterator#0
 //@ props C13
 //@ modifies raw
 //@ loop 0 invariant pos_in_range: 0 <= iterator_pos && iterator_pos <= itCount(iterator_snap, iterator_pfx)
@@ -217,6 +234,7 @@ package keeper
 //@ ensures [C13] deletes_exactly_own_records: raw == clearPfx(old(raw), PEarned(provider))
 
 //@ func (Keeper).SetEarnedFees
+//@ vars (keeper.Keeper).SetEarnedFees: k=github.com/irismod/service/keeper.Keeper#0 ctx=github.com/cosmos/cosmos-sdk/types.Context#0 provider=github.com/cosmos/cosmos-sdk/types.AccAddress#0 fees=github.com/cosmos/cosmos-sdk/types.Coins#0 store=github.com/cosmos/cosmos-sdk/types.KVStore#0 i=int#0 bz=[]byte#0
 //@ props C13
 //@ modifies raw
 //@ loop 0 invariant seen: 0 <= iter && iter <= len(fees)
@@ -224,6 +242,7 @@ package keeper
 //@ ensures [C13] one_record_per_coin: raw == wrEarned(old(raw), provider, fees, len(fees))
 
 //@ func (Keeper).SetOwnerEarnedFees
+//@ vars (keeper.Keeper).SetOwnerEarnedFees: k=github.com/irismod/service/keeper.Keeper#0 ctx=github.com/cosmos/cosmos-sdk/types.Context#0 owner=github.com/cosmos/cosmos-sdk/types.AccAddress#0 fees=github.com/cosmos/cosmos-sdk/types.Coins#0 store=github.com/cosmos/cosmos-sdk/types.KVStore#0 i=int#0 bz=[]byte#0
 //@ props C13
 //@ modifies raw
 //@ loop 0 invariant seen: 0 <= iter && iter <= len(fees)
@@ -231,6 +250,7 @@ package keeper
 //@ ensures [C13] owner_record: raw == wrOwnerEarned(old(raw), owner, fees, len(fees))
 
 //@ func (Keeper).GetOwnerEarnedFees
+//@ vars (keeper.Keeper).GetOwnerEarnedFees: k=github.com/irismod/service/keeper.Keeper#0 ctx=github.com/cosmos/cosmos-sdk/types.Context#0 owner=github.com/cosmos/cosmos-sdk/types.AccAddress#0 fees=github.com/cosmos/cosmos-sdk/types.Coins#0 found=bool#0 store=github.com/cosmos/cosmos-sdk/types.KVStore#0 iterator=github.com/cosmos/cosmos-sdk/types.Iterator#0 balance=github.com/cosmos/cosmos-sdk/types.Coin#0
 //@ props C13 C17
 //@ loop 0 invariant pos_in_range: 0 <= iterator_pos && iterator_pos <= itCount(iterator_snap, iterator_pfx)
 //@ loop 0 invariant sum_so_far: forall d Str :: amt(fees, d) == sumIt(iterator_snap, iterator_pfx, iterator_pos, d)
@@ -238,6 +258,7 @@ package keeper
 //@ ensures found == true
 
 //@ func (Keeper).DeleteOwnerEarnedFees
+//@ vars (keeper.Keeper).DeleteOwnerEarnedFees: k=github.com/irismod/service/keeper.Keeper#0 ctx=github.com/cosmos/cosmos-sdk/types.Context#0 owner=github.com/cosmos/cosmos-sdk/types.AccAddress#0 store=github.com/cosmos/cosmos-sdk/types.KVStore#0 iterator=github.com/cosmos/cosmos-sdk/types.Iterator#0
 //@ props C13
 //@ modifies raw
 //@ loop 0 invariant pos_in_range: 0 <= iterator_pos && iterator_pos <= itCount(iterator_snap, iterator_pfx)
@@ -245,6 +266,7 @@ package keeper
 //@ ensures [C13] deletes_exactly_owner_record: raw == clearPfx(old(raw), POwnerEarned(owner))
 
 //@ func (Keeper).AddEarnedFee
+//@ vars (keeper.Keeper).AddEarnedFee: k=github.com/irismod/service/keeper.Keeper#0 ctx=github.com/cosmos/cosmos-sdk/types.Context#0 provider=github.com/cosmos/cosmos-sdk/types.AccAddress#0 fee=github.com/cosmos/cosmos-sdk/types.Coins#0 taxRate=github.com/cosmos/cosmos-sdk/types.Dec#0 taxCoins=github.com/cosmos/cosmos-sdk/types.Coins#1 coin=github.com/cosmos/cosmos-sdk/types.Coin#0 taxAmount=github.com/cosmos/cosmos-sdk/types.Int#0 err=error#0 earnedFee=github.com/cosmos/cosmos-sdk/types.Coins#2 hasNeg=bool#0 earnedFees=github.com/cosmos/cosmos-sdk/types.Coins#3 owner=github.com/cosmos/cosmos-sdk/types.AccAddress#1 ownerEarnedFees=github.com/cosmos/cosmos-sdk/types.Coins#4
 //@ props C13 C02 C01
 //@ modifies raw, bal
 //@ requires fee_nonneg: forall i Int :: {fee[i]} 0 <= i && i < len(fee) ==> fee[i].Amount >= 0
@@ -262,6 +284,7 @@ package keeper
 //@ ensures error_changes_no_record: err != NoErr ==> raw == old(raw)
 
 //@ func (Keeper).WithdrawEarnedFees
+//@ vars (keeper.Keeper).WithdrawEarnedFees: k=github.com/irismod/service/keeper.Keeper#0 ctx=github.com/cosmos/cosmos-sdk/types.Context#0 owner=github.com/cosmos/cosmos-sdk/types.AccAddress#0 provider=github.com/cosmos/cosmos-sdk/types.AccAddress#1 providerOwner=github.com/cosmos/cosmos-sdk/types.AccAddress#2 ownerEarnedFees=github.com/cosmos/cosmos-sdk/types.Coins#0 found=bool#0 withdrawFees=github.com/cosmos/cosmos-sdk/types.Coins#1 earnedFees=github.com/cosmos/cosmos-sdk/types.Coins#2 found=bool#1 iterator=github.com/cosmos/cosmos-sdk/types.Iterator#0 provider=github.com/cosmos/cosmos-sdk/types.AccAddress#3 withdrawAddr=github.com/cosmos/cosmos-sdk/types.AccAddress#4
 //@ props C13 C05 C01
 //@ modifies raw, bal
 //@ requires signer_address: len(owner) == 20
@@ -283,24 +306,28 @@ package keeper
 
 // ---------------------------------------------------------------- requests, responses, batches (C02, C08, C12, C16, C17)
 //@ func (Keeper).GetRequest
+//@ vars (keeper.Keeper).GetRequest: k=github.com/irismod/service/keeper.Keeper#0 ctx=github.com/cosmos/cosmos-sdk/types.Context#0 requestID=github.com/tendermint/tendermint/libs/bytes.HexBytes#0 request=github.com/irismod/service/types.Request#0 found=bool#0 compactRequest=github.com/irismod/service/types.CompactRequest#0 requestContext=github.com/irismod/service/types.RequestContext#0
 //@ props C17 C02 C08
 //@ ensures found_iff_record_and_context: found == requestFound(raw, requestID)
 //@ ensures [C17] reconstructed_from_its_context: found ==> request == requestOf(raw, requestID)
 //@ ensures !found ==> request == zero_Request
 
 //@ func (Keeper).GetResponseOutputs
+//@ vars (keeper.Keeper).GetResponseOutputs: k=github.com/irismod/service/keeper.Keeper#0 ctx=github.com/cosmos/cosmos-sdk/types.Context#0 requestContextID=github.com/tendermint/tendermint/libs/bytes.HexBytes#0 batchCounter=uint64#0 iterator=github.com/cosmos/cosmos-sdk/types.Iterator#0 outputs=[]string#0 response=github.com/irismod/service/types.Response#0
 //@ props C12
 //@ loop 0 invariant pos_in_range: 0 <= iterator_pos && iterator_pos <= itCount(iterator_snap, iterator_pfx)
 //@ loop 0 invariant outputs_so_far: outputs == outsIt(iterator_snap, iterator_pfx, iterator_pos)
 //@ ensures [C12] exactly_the_nonempty_outputs_of_the_batch: result == outputsOf(raw, requestContextID, batchCounter)
 
 //@ func (Keeper).Callback
+//@ vars (keeper.Keeper).Callback: k=github.com/irismod/service/keeper.Keeper#0 ctx=github.com/cosmos/cosmos-sdk/types.Context#0 requestContextID=github.com/tendermint/tendermint/libs/bytes.HexBytes#0 requestContext=github.com/irismod/service/types.RequestContext#0 respCallback=func#0 outputs=[]string#0
 //@ props C12
 //@ modifies cblog
 //@ ensures [C12] one_callback_with_batch_outputs: (let c := ctxOrZero(raw, requestContextID) in let outs := outputsOf(raw, requestContextID, c.BatchCounter) in
 //@      cblog == cbResp(old(cblog), requestContextID, outs, len(outs) < c.BatchResponseThreshold))
 
 //@ func (Keeper).CompleteBatch
+//@ vars (keeper.Keeper).CompleteBatch: k=github.com/irismod/service/keeper.Keeper#0 ctx=github.com/cosmos/cosmos-sdk/types.Context#0 requestContext=github.com/irismod/service/types.RequestContext#0 requestContextID=github.com/tendermint/tendermint/libs/bytes.HexBytes#0 batchState=github.com/irismod/service/types.BatchState#0 stateJSON=[]byte#0
 //@ props C12 C09
 //@ modifies cblog
 //@ ensures [C12] marks_batch_completed_only: result == requestContext[BatchState := BATCHCOMPLETED]
@@ -308,6 +335,7 @@ package keeper
 //@      cblog == (len(requestContext.ModuleName) != 0 ? cbResp(old(cblog), requestContextID, outs, len(outs) < c.BatchResponseThreshold) : old(cblog)))
 
 //@ func (Keeper).AddResponse
+//@ vars (keeper.Keeper).AddResponse: k=github.com/irismod/service/keeper.Keeper#0 ctx=github.com/cosmos/cosmos-sdk/types.Context#0 requestID=github.com/tendermint/tendermint/libs/bytes.HexBytes#0 provider=github.com/cosmos/cosmos-sdk/types.AccAddress#0 result=string#0 output=string#1 request=github.com/irismod/service/types.Request#0 response=github.com/irismod/service/types.Response#0 err=error#0 found=bool#0 err=error#1 err=error#2 requestContextID=github.com/tendermint/tendermint/libs/bytes.HexBytes#1 requestContext=github.com/irismod/service/types.RequestContext#0
 //@ props C02 C08 C05 C12 C04 C07 C20
 //@ preserves [C10] never_more_batches_than_the_largest_total: cadInv(raw, ghostMaxTot)
 //@ preserves [C11] no_event_in_the_past: futInv(raw, ctxHeight(ctx))
@@ -349,6 +377,7 @@ package keeper
 
 // ---------------------------------------------------------------- issuing a batch (C06, C01, C08, C12)
 //@ func (Keeper).FilterServiceProviders
+//@ vars (keeper.Keeper).FilterServiceProviders: k=github.com/irismod/service/keeper.Keeper#0 ctx=github.com/cosmos/cosmos-sdk/types.Context#0 serviceName=string#0 providers=[]github.com/cosmos/cosmos-sdk/types.AccAddress#0 timeout=int64#0 serviceFeeCap=github.com/cosmos/cosmos-sdk/types.Coins#0 consumer=github.com/cosmos/cosmos-sdk/types.AccAddress#0 newProviders=[]github.com/cosmos/cosmos-sdk/types.AccAddress#1 totalPrices=github.com/cosmos/cosmos-sdk/types.Coins#1 provider=github.com/cosmos/cosmos-sdk/types.AccAddress#1 binding=github.com/irismod/service/types.ServiceBinding#0 found=bool#0 price=github.com/cosmos/cosmos-sdk/types.Coins#2 rawDenom=string#1 err=error#0
 //@ props C06 C01
 //@ requires wf: WF(raw)
 //@ loop 0 invariant seen: 0 <= iter && iter <= len(providers)
@@ -363,6 +392,7 @@ package keeper
 //@ ensures [C06] only_providers_with_bindings: err == NoErr ==> len(result0) <= len(providers) && (forall i Int :: {result0[i]} 0 <= i && i < len(result0) ==> bindFound(raw, serviceName, result0[i]))
 
 //@ func (Keeper).buildRequest
+//@ vars (keeper.Keeper).buildRequest: k=github.com/irismod/service/keeper.Keeper#0 ctx=github.com/cosmos/cosmos-sdk/types.Context#0 requestContextID=github.com/tendermint/tendermint/libs/bytes.HexBytes#0 batchCounter=uint64#0 serviceName=string#0 provider=github.com/cosmos/cosmos-sdk/types.AccAddress#0 superMode=bool#0 consumer=github.com/cosmos/cosmos-sdk/types.AccAddress#1 timeout=int64#0 serviceFee=github.com/cosmos/cosmos-sdk/types.Coins#0 binding=github.com/irismod/service/types.ServiceBinding#0
 //@ props C08 C07 C01
 //@ requires wf: WF(raw)
 //@ ensures [C08] expiry_is_issue_height_plus_timeout: result.RequestHeight == ctxHeight(ctx) && result.ExpirationHeight == wrap_i64(ctxHeight(ctx) + timeout)
@@ -371,6 +401,7 @@ package keeper
 //@ ensures identity_fields: result.RequestContextId == requestContextID && result.RequestContextBatchCounter == batchCounter && result.Provider == provider
 
 //@ func (Keeper).InitiateRequests
+//@ vars (keeper.Keeper).InitiateRequests: k=github.com/irismod/service/keeper.Keeper#0 ctx=github.com/cosmos/cosmos-sdk/types.Context#0 requestContextID=github.com/tendermint/tendermint/libs/bytes.HexBytes#0 providers=[]github.com/cosmos/cosmos-sdk/types.AccAddress#0 providerRequests=map[string][]string#0 requestContext=github.com/irismod/service/types.RequestContext#0 requests=[]github.com/irismod/service/types.CompactRequest#0 requestIDs=[]github.com/tendermint/tendermint/libs/bytes.HexBytes#0 providerIndex=int#0 provider=github.com/cosmos/cosmos-sdk/types.AccAddress#0 request=github.com/irismod/service/types.CompactRequest#0 requestID=github.com/tendermint/tendermint/libs/bytes.HexBytes#1 requestsJSON=[]byte#0
 //@ props C01 C08 C12 C18 C09 C16
 //@ modifies raw
 //@ requires wf: WF(raw)
@@ -388,6 +419,7 @@ package keeper
 //@ ensures [C18] ids_in_issue_order: len(result) == len(providers)
 
 //@ func (Keeper).SkipCurrentRequestBatch
+//@ vars (keeper.Keeper).SkipCurrentRequestBatch: k=github.com/irismod/service/keeper.Keeper#0 ctx=github.com/cosmos/cosmos-sdk/types.Context#0 requestContextID=github.com/tendermint/tendermint/libs/bytes.HexBytes#0 requestContext=github.com/irismod/service/types.RequestContext#0
 //@ props C06 C09 C11 C12
 //@ modifies raw
 //@ ensures [C06,C09,C11] counter_advances_no_requests_expiry_scheduled: raw == old(raw)
@@ -396,6 +428,7 @@ package keeper
 //@      [KExpH(requestContextID) := hVal(wrap_i64(ctxHeight(ctx) + requestContext.Timeout))]
 
 //@ func (Keeper).OnRequestContextPaused
+//@ vars (keeper.Keeper).OnRequestContextPaused: k=github.com/irismod/service/keeper.Keeper#0 ctx=github.com/cosmos/cosmos-sdk/types.Context#0 requestContext=github.com/irismod/service/types.RequestContext#0 requestContextID=github.com/tendermint/tendermint/libs/bytes.HexBytes#0 cause=string#0 stateCallback=func#0
 //@ props C09 C12 C06
 //@ modifies raw, cblog
 //@ ensures [C09] context_paused_batch_completed: raw == old(raw)[KCtx(requestContextID) := enc_RequestContext(requestContext[BatchState := BATCHCOMPLETED][State := PAUSED])]
@@ -403,6 +436,7 @@ package keeper
 
 // ---------------------------------------------------------------- batch clean-up (C16)
 //@ func (Keeper).CleanBatch
+//@ vars (keeper.Keeper).CleanBatch: k=github.com/irismod/service/keeper.Keeper#0 ctx=github.com/cosmos/cosmos-sdk/types.Context#0 requestContext=github.com/irismod/service/types.RequestContext#0 requestContextID=github.com/tendermint/tendermint/libs/bytes.HexBytes#0 iterator=github.com/cosmos/cosmos-sdk/types.Iterator#0 requestID=[]byte#0
 //@ props C16
 //@ modifies raw
 //@ loop 0 invariant pos_in_range: 0 <= iterator_pos && iterator_pos <= itCount(iterator_snap, iterator_pfx)
@@ -413,11 +447,13 @@ package keeper
 //@ ensures [C16] removes_exactly_the_batch_records: forall k Key :: {raw[k]} raw[k] == (cleanedKey(old(raw), requestContextID, requestContext.BatchCounter, k) ? bnil : old(raw)[k])
 
 //@ func (Keeper).CompleteServiceContext
+//@ vars (keeper.Keeper).CompleteServiceContext: k=github.com/irismod/service/keeper.Keeper#0 ctx=github.com/cosmos/cosmos-sdk/types.Context#0 context=github.com/irismod/service/types.RequestContext#0 requestContextID=github.com/tendermint/tendermint/libs/bytes.HexBytes#0
 //@ props C16 C09
 //@ modifies raw
 //@ ensures [C16] context_removed: raw == old(raw)[KCtx(requestContextID) := bnil]
 
 //@ func (Keeper).CreateRequestContext
+//@ vars (keeper.Keeper).CreateRequestContext: k=github.com/irismod/service/keeper.Keeper#0 ctx=github.com/cosmos/cosmos-sdk/types.Context#0 serviceName=string#0 providers=[]github.com/cosmos/cosmos-sdk/types.AccAddress#0 consumer=github.com/cosmos/cosmos-sdk/types.AccAddress#0 input=string#1 serviceFeeCap=github.com/cosmos/cosmos-sdk/types.Coins#0 timeout=int64#0 superMode=bool#0 repeated=bool#1 repeatedFrequency=uint64#0 repeatedTotal=int64#1 state=github.com/irismod/service/types.RequestContextState#0 responseThreshold=uint32#0 moduleName=string#2 err=error#0 err=error#1 err=error#2 found=bool#2 err=error#3 err=error#4 maxRequestTimeout=int64#2 batchCounter=uint64#1 batchRequestCount=uint32#1 batchResponseCount=uint32#2 batchResponseThreshold=uint32#3 batchState=github.com/irismod/service/types.RequestContextBatchState#0 requestContext=github.com/irismod/service/types.RequestContext#0 txHash=[]byte#0 msgIndex=int64#3 requestContextID=github.com/tendermint/tendermint/libs/bytes.HexBytes#0
 //@ props C10 C09 C18 C15 C11
 //@ requires [C10] never_more_batches_than_the_largest_total: cadInv(raw, ghostMaxTot)
 //@ ensures [C10] never_more_batches_than_the_largest_total_kept: err == NoErr ==> cadInv(raw, maxNext(ghostMaxTot, raw))
@@ -441,6 +477,7 @@ package keeper
 //@ ensures error_changes_nothing: err != NoErr ==> raw == old(raw)
 
 //@ func (Keeper).AddServiceDefinition
+//@ vars (keeper.Keeper).AddServiceDefinition: k=github.com/irismod/service/keeper.Keeper#0 ctx=github.com/cosmos/cosmos-sdk/types.Context#0 name=string#0 description=string#1 tags=[]string#0 author=github.com/cosmos/cosmos-sdk/types.AccAddress#0 authorDescription=string#2 schemas=string#3 found=bool#0 svcDef=github.com/irismod/service/types.ServiceDefinition#0
 //@ props C15
 //@ modifies raw
 //@ ensures [C15] second_definition_rejected: err == NoErr ==> !defFound(old(raw), name)
@@ -449,6 +486,7 @@ package keeper
 
 // ---------------------------------------------------------------- gRPC queries (C17): each returns exactly the stored view
 //@ func (Keeper).GetOwnerServiceBindings
+//@ vars (keeper.Keeper).GetOwnerServiceBindings: k=github.com/irismod/service/keeper.Keeper#0 ctx=github.com/cosmos/cosmos-sdk/types.Context#0 owner=github.com/cosmos/cosmos-sdk/types.AccAddress#0 serviceName=string#0 store=github.com/cosmos/cosmos-sdk/types.KVStore#0 bindings=[]*github.com/irismod/service/types.ServiceBinding#0 iterator=github.com/cosmos/cosmos-sdk/types.Iterator#0 bindingKey=[]byte#0 sepIndex=int#0 serviceName=string#1 provider=github.com/cosmos/cosmos-sdk/types.AccAddress#1 binding=github.com/irismod/service/types.ServiceBinding#0 found=bool#0
 //@ props C17 C15
 //@ requires owner_address: len(owner) == 20
 //@ loop 0 invariant pos_in_range: 0 <= iterator_pos && iterator_pos <= itCount(iterator_snap, iterator_pfx)
@@ -457,16 +495,19 @@ package keeper
 //@ ensures [C17,C15] exactly_the_owners_bindings_of_the_service: result == ownerBindsIt(raw, POwnerBind(owner, serviceName), itCount(raw, POwnerBind(owner, serviceName)))
 
 //@ func (Keeper).Definition
+//@ vars (keeper.Keeper).Definition: k=github.com/irismod/service/keeper.Keeper#0 c=context.Context#0 req=*github.com/irismod/service/types.QueryDefinitionRequest#0 ctx=github.com/cosmos/cosmos-sdk/types.Context#0 definition=github.com/irismod/service/types.ServiceDefinition#0 found=bool#0
 //@ props C17
 //@ ensures [C17] the_stored_definition: err == NoErr ==> defFound(raw, req.ServiceName) && result0.ServiceDefinition == dec_ServiceDefinition(raw[KDef(req.ServiceName)])
 //@ ensures [C17] error_iff_absent: (err == NoErr) <==> defFound(raw, req.ServiceName)
 
 //@ func (Keeper).Binding
+//@ vars (keeper.Keeper).Binding: k=github.com/irismod/service/keeper.Keeper#0 c=context.Context#0 req=*github.com/irismod/service/types.QueryBindingRequest#0 ctx=github.com/cosmos/cosmos-sdk/types.Context#0 binding=github.com/irismod/service/types.ServiceBinding#0 found=bool#0
 //@ props C17
 //@ ensures [C17] the_stored_binding: err == NoErr ==> bindFound(raw, req.ServiceName, req.Provider) && result0.ServiceBinding == bindOf(raw, req.ServiceName, req.Provider)
 //@ ensures [C17] error_iff_absent: (err == NoErr) <==> bindFound(raw, req.ServiceName, req.Provider)
 
 //@ func (Keeper).Bindings
+//@ vars (keeper.Keeper).Bindings: k=github.com/irismod/service/keeper.Keeper#0 c=context.Context#0 req=*github.com/irismod/service/types.QueryBindingsRequest#0 ctx=github.com/cosmos/cosmos-sdk/types.Context#0 bindings=[]*github.com/irismod/service/types.ServiceBinding#0 iterator=github.com/cosmos/cosmos-sdk/types.Iterator#0 binding=github.com/irismod/service/types.ServiceBinding#0
 //@ props C17 C15
 //@ requires owner_address: len(req.Owner) == 0 || len(req.Owner) == 20
 //@ loop 0 invariant pos_in_range: 0 <= iterator_pos && iterator_pos <= itCount(iterator_snap, iterator_pfx)
@@ -477,19 +518,23 @@ package keeper
 //@      : ownerBindsIt(raw, POwnerBind(req.Owner, req.ServiceName), itCount(raw, POwnerBind(req.Owner, req.ServiceName))))
 
 //@ func (Keeper).WithdrawAddress
+//@ vars (keeper.Keeper).WithdrawAddress: k=github.com/irismod/service/keeper.Keeper#0 c=context.Context#0 req=*github.com/irismod/service/types.QueryWithdrawAddressRequest#0 ctx=github.com/cosmos/cosmos-sdk/types.Context#0 withdrawAddr=github.com/cosmos/cosmos-sdk/types.AccAddress#0
 //@ props C17 C13
 //@ ensures [C17] the_withdrawal_address_or_the_owner: err == NoErr && result0.WithdrawAddress == withdrawAddrOf(raw, req.Owner)
 
 //@ func (Keeper).RequestContext
+//@ vars (keeper.Keeper).RequestContext: k=github.com/irismod/service/keeper.Keeper#0 c=context.Context#0 req=*github.com/irismod/service/types.QueryRequestContextRequest#0 ctx=github.com/cosmos/cosmos-sdk/types.Context#0 requestContext=github.com/irismod/service/types.RequestContext#0
 //@ props C17
 //@ ensures [C17] the_stored_context_or_zero: err == NoErr && result0.RequestContext == ctxOrZero(raw, req.RequestContextId)
 
 //@ func (Keeper).Request
+//@ vars (keeper.Keeper).Request: k=github.com/irismod/service/keeper.Keeper#0 c=context.Context#0 req=*github.com/irismod/service/types.QueryRequestRequest#0 ctx=github.com/cosmos/cosmos-sdk/types.Context#0 request=github.com/irismod/service/types.Request#0
 //@ props C17
 //@ ensures [C17] the_reconstructed_request_or_zero: err == NoErr ==> len(req.RequestId) == 58 && result0.Request == requestOrZero(raw, req.RequestId)
 //@ ensures [C17] error_iff_bad_length: (err == NoErr) <==> len(req.RequestId) == 58
 
 //@ func (Keeper).Requests
+//@ vars (keeper.Keeper).Requests: k=github.com/irismod/service/keeper.Keeper#0 c=context.Context#0 req=*github.com/irismod/service/types.QueryRequestsRequest#0 ctx=github.com/cosmos/cosmos-sdk/types.Context#0 iterator=github.com/cosmos/cosmos-sdk/types.Iterator#0 requests=[]*github.com/irismod/service/types.Request#0 requestID=github.com/gogo/protobuf/types.BytesValue#0 request=github.com/irismod/service/types.Request#0
 //@ props C17
 //@ loop 0 invariant pos_in_range: 0 <= iterator_pos && iterator_pos <= itCount(iterator_snap, iterator_pfx)
 //@ loop 0 invariant snapshot: iterator_snap == raw && iterator_pfx == PActBind(req.ServiceName, req.Provider)
@@ -497,6 +542,7 @@ package keeper
 //@ ensures [C17] exactly_the_pending_requests_of_the_binding: err == NoErr && result0.Requests == reqsByMarkerIt(raw, PActBind(req.ServiceName, req.Provider), itCount(raw, PActBind(req.ServiceName, req.Provider)))
 
 //@ func (Keeper).RequestsByReqCtx
+//@ vars (keeper.Keeper).RequestsByReqCtx: k=github.com/irismod/service/keeper.Keeper#0 c=context.Context#0 req=*github.com/irismod/service/types.QueryRequestsByReqCtxRequest#0 ctx=github.com/cosmos/cosmos-sdk/types.Context#0 iterator=github.com/cosmos/cosmos-sdk/types.Iterator#0 requests=[]*github.com/irismod/service/types.Request#0 requestID=[]byte#0 request=github.com/irismod/service/types.Request#0
 //@ props C17
 //@ requires in_range: 0 <= req.BatchCounter && req.BatchCounter <= 18446744073709551615
 //@ loop 0 invariant pos_in_range: 0 <= iterator_pos && iterator_pos <= itCount(iterator_snap, iterator_pfx)
@@ -505,11 +551,13 @@ package keeper
 //@ ensures [C17] exactly_the_requests_of_the_batch: err == NoErr && result0.Requests == reqsByKeyIt(raw, PReqByCtx(req.RequestContextId, req.BatchCounter), itCount(raw, PReqByCtx(req.RequestContextId, req.BatchCounter)))
 
 //@ func (Keeper).Response
+//@ vars (keeper.Keeper).Response: k=github.com/irismod/service/keeper.Keeper#0 c=context.Context#0 req=*github.com/irismod/service/types.QueryResponseRequest#0 ctx=github.com/cosmos/cosmos-sdk/types.Context#0 response=github.com/irismod/service/types.Response#0
 //@ props C17
 //@ ensures [C17] the_stored_response_or_zero: err == NoErr ==> len(req.RequestId) == 58 && result0.Response == (raw[KResp(req.RequestId)] == bnil ? zero_Response : dec_Response(raw[KResp(req.RequestId)]))
 //@ ensures [C17] error_iff_bad_length: (err == NoErr) <==> len(req.RequestId) == 58
 
 //@ func (Keeper).Responses
+//@ vars (keeper.Keeper).Responses: k=github.com/irismod/service/keeper.Keeper#0 c=context.Context#0 req=*github.com/irismod/service/types.QueryResponsesRequest#0 ctx=github.com/cosmos/cosmos-sdk/types.Context#0 iterator=github.com/cosmos/cosmos-sdk/types.Iterator#0 responses=[]*github.com/irismod/service/types.Response#0 response=github.com/irismod/service/types.Response#0
 //@ props C17
 //@ loop 0 invariant pos_in_range: 0 <= iterator_pos && iterator_pos <= itCount(iterator_snap, iterator_pfx)
 //@ loop 0 invariant snapshot: iterator_snap == raw && iterator_pfx == PRespByCtx(req.RequestContextId, req.BatchCounter)
@@ -517,26 +565,31 @@ package keeper
 //@ ensures [C17] exactly_the_responses_of_the_batch: err == NoErr && result0.Responses == respsIt(raw, PRespByCtx(req.RequestContextId, req.BatchCounter), itCount(raw, PRespByCtx(req.RequestContextId, req.BatchCounter)))
 
 //@ func (Keeper).EarnedFees
+//@ vars (keeper.Keeper).EarnedFees: k=github.com/irismod/service/keeper.Keeper#0 c=context.Context#0 req=*github.com/irismod/service/types.QueryEarnedFeesRequest#0 ctx=github.com/cosmos/cosmos-sdk/types.Context#0 fees=github.com/cosmos/cosmos-sdk/types.Coins#0 found=bool#0
 //@ props C17 C13
 //@ ensures [C17] the_recorded_earnings: err == NoErr && (forall d Str :: amt(result0.Fees, d) == pfxSum(raw, PEarned(req.Provider), d))
 
 //@ func (Keeper).Params
+//@ vars (keeper.Keeper).Params: k=github.com/irismod/service/keeper.Keeper#0 c=context.Context#0 req=*github.com/irismod/service/types.QueryParamsRequest#0 ctx=github.com/cosmos/cosmos-sdk/types.Context#0 params=github.com/irismod/service/types.Params#0
 //@ props C17
 //@ ensures [C17] the_parameters_in_force: err == NoErr && result0.Params == params
 
 // ---------------------------------------------------------------- legacy querier (C17): same views as the gRPC methods, JSON-encoded.
 // D(x) below is the decoded parameter struct jsonDec_<T>(req.Data); the answer is jsonEnc_<T>(view).
 //@ func queryServiceDefinition
+//@ vars keeper.queryServiceDefinition: ctx=github.com/cosmos/cosmos-sdk/types.Context#0 path=[]string#0 req=github.com/tendermint/tendermint/abci/types.RequestQuery#0 k=github.com/irismod/service/keeper.Keeper#0 legacyQuerierCdc=*github.com/cosmos/cosmos-sdk/codec.LegacyAmino#0 params=github.com/irismod/service/types.QueryDefinitionParams#0 err=error#0 definition=github.com/irismod/service/types.ServiceDefinition#0 found=bool#0 bz=[]byte#0 err=error#1
 //@ props C17
 //@ ensures [C17] same_view_as_grpc: err == NoErr ==> (let ps := jsonDec_QueryDefinitionParams(fld_Opaque_RequestQuery_Data(req)) in
 //@      defFound(raw, ps.ServiceName) && result0 == jsonEnc_ServiceDefinition(dec_ServiceDefinition(raw[KDef(ps.ServiceName)])))
 
 //@ func queryBinding
+//@ vars keeper.queryBinding: ctx=github.com/cosmos/cosmos-sdk/types.Context#0 req=github.com/tendermint/tendermint/abci/types.RequestQuery#0 k=github.com/irismod/service/keeper.Keeper#0 legacyQuerierCdc=*github.com/cosmos/cosmos-sdk/codec.LegacyAmino#0 params=github.com/irismod/service/types.QueryBindingParams#0 err=error#0 svcBinding=github.com/irismod/service/types.ServiceBinding#0 found=bool#0 bz=[]byte#0 err=error#1
 //@ props C17
 //@ ensures [C17] same_view_as_grpc: err == NoErr ==> (let ps := jsonDec_QueryBindingParams(fld_Opaque_RequestQuery_Data(req)) in
 //@      bindFound(raw, ps.ServiceName, ps.Provider) && result0 == jsonEnc_ServiceBinding(bindOf(raw, ps.ServiceName, ps.Provider)))
 
 //@ func queryBindings
+//@ vars keeper.queryBindings: ctx=github.com/cosmos/cosmos-sdk/types.Context#0 req=github.com/tendermint/tendermint/abci/types.RequestQuery#0 k=github.com/irismod/service/keeper.Keeper#0 legacyQuerierCdc=*github.com/cosmos/cosmos-sdk/codec.LegacyAmino#0 params=github.com/irismod/service/types.QueryBindingsParams#0 err=error#0 bindings=[]*github.com/irismod/service/types.ServiceBinding#0 iterator=github.com/cosmos/cosmos-sdk/types.Iterator#0 binding=github.com/irismod/service/types.ServiceBinding#0 bz=[]byte#0 err=error#1
 //@ props C17 C15
 //@ requires owner_address: (let ps := jsonDec_QueryBindingsParams(fld_Opaque_RequestQuery_Data(req)) in len(ps.Owner) == 0 || len(ps.Owner) == 20)
 //@ loop 0 invariant pos_in_range: 0 <= iterator_pos && iterator_pos <= itCount(iterator_snap, iterator_pfx)
@@ -547,15 +600,18 @@ package keeper
 //@           : ownerBindsIt(raw, POwnerBind(ps.Owner, ps.ServiceName), itCount(raw, POwnerBind(ps.Owner, ps.ServiceName)))))
 
 //@ func queryWithdrawAddress
+//@ vars keeper.queryWithdrawAddress: ctx=github.com/cosmos/cosmos-sdk/types.Context#0 req=github.com/tendermint/tendermint/abci/types.RequestQuery#0 k=github.com/irismod/service/keeper.Keeper#0 legacyQuerierCdc=*github.com/cosmos/cosmos-sdk/codec.LegacyAmino#0 params=github.com/irismod/service/types.QueryWithdrawAddressParams#0 err=error#0 withdrawAddr=github.com/cosmos/cosmos-sdk/types.AccAddress#0 bz=[]byte#0 err=error#1
 //@ props C17
 //@ ensures [C17] same_view_as_grpc: err == NoErr ==> result0 == jsonEnc_Bytes(withdrawAddrOf(raw, jsonDec_QueryWithdrawAddressParams(fld_Opaque_RequestQuery_Data(req)).Owner))
 
 //@ func queryRequest
+//@ vars keeper.queryRequest: ctx=github.com/cosmos/cosmos-sdk/types.Context#0 req=github.com/tendermint/tendermint/abci/types.RequestQuery#0 k=github.com/irismod/service/keeper.Keeper#0 legacyQuerierCdc=*github.com/cosmos/cosmos-sdk/codec.LegacyAmino#0 params=github.com/irismod/service/types.QueryRequestParams#0 err=error#0 request=github.com/irismod/service/types.Request#0 bz=[]byte#0 err=error#1
 //@ props C17
 //@ ensures [C17] same_view_as_grpc: err == NoErr ==> (let ps := jsonDec_QueryRequestParams(fld_Opaque_RequestQuery_Data(req)) in
 //@      len(ps.RequestID) == 58 && result0 == jsonEnc_Request(requestOrZero(raw, ps.RequestID)))
 
 //@ func queryRequests
+//@ vars keeper.queryRequests: ctx=github.com/cosmos/cosmos-sdk/types.Context#0 req=github.com/tendermint/tendermint/abci/types.RequestQuery#0 k=github.com/irismod/service/keeper.Keeper#0 legacyQuerierCdc=*github.com/cosmos/cosmos-sdk/codec.LegacyAmino#0 params=github.com/irismod/service/types.QueryRequestsParams#0 err=error#0 iterator=github.com/cosmos/cosmos-sdk/types.Iterator#0 requests=[]github.com/irismod/service/types.Request#0 requestID=github.com/gogo/protobuf/types.BytesValue#0 request=github.com/irismod/service/types.Request#0 bz=[]byte#0 err=error#1
 //@ props C17
 //@ loop 0 invariant pos_in_range: 0 <= iterator_pos && iterator_pos <= itCount(iterator_snap, iterator_pfx)
 //@ loop 0 invariant snapshot: iterator_snap == raw && iterator_pfx == PActBind(params.ServiceName, params.Provider)
@@ -564,15 +620,18 @@ package keeper
 //@      result0 == jsonEnc__Slice_Request_(reqsByMarkerIt(raw, PActBind(ps.ServiceName, ps.Provider), itCount(raw, PActBind(ps.ServiceName, ps.Provider)))))
 
 //@ func queryResponse
+//@ vars keeper.queryResponse: ctx=github.com/cosmos/cosmos-sdk/types.Context#0 req=github.com/tendermint/tendermint/abci/types.RequestQuery#0 k=github.com/irismod/service/keeper.Keeper#0 legacyQuerierCdc=*github.com/cosmos/cosmos-sdk/codec.LegacyAmino#0 params=github.com/irismod/service/types.QueryResponseParams#0 err=error#0 response=github.com/irismod/service/types.Response#0 bz=[]byte#0 err=error#1
 //@ props C17
 //@ ensures [C17] same_view_as_grpc: err == NoErr ==> (let ps := jsonDec_QueryResponseParams(fld_Opaque_RequestQuery_Data(req)) in
 //@      len(ps.RequestID) == 58 && result0 == jsonEnc_Response(raw[KResp(ps.RequestID)] == bnil ? zero_Response : dec_Response(raw[KResp(ps.RequestID)])))
 
 //@ func queryRequestContext
+//@ vars keeper.queryRequestContext: ctx=github.com/cosmos/cosmos-sdk/types.Context#0 req=github.com/tendermint/tendermint/abci/types.RequestQuery#0 k=github.com/irismod/service/keeper.Keeper#0 legacyQuerierCdc=*github.com/cosmos/cosmos-sdk/codec.LegacyAmino#0 params=github.com/irismod/service/types.QueryRequestContextParams#0 err=error#0 requestContext=github.com/irismod/service/types.RequestContext#0 bz=[]byte#0 err=error#1
 //@ props C17
 //@ ensures [C17] same_view_as_grpc: err == NoErr ==> result0 == jsonEnc_RequestContext(ctxOrZero(raw, jsonDec_QueryRequestContextParams(fld_Opaque_RequestQuery_Data(req)).RequestContextID))
 
 //@ func queryRequestsByReqCtx
+//@ vars keeper.queryRequestsByReqCtx: ctx=github.com/cosmos/cosmos-sdk/types.Context#0 req=github.com/tendermint/tendermint/abci/types.RequestQuery#0 k=github.com/irismod/service/keeper.Keeper#0 legacyQuerierCdc=*github.com/cosmos/cosmos-sdk/codec.LegacyAmino#0 params=github.com/irismod/service/types.QueryRequestsByReqCtxParams#0 err=error#0 iterator=github.com/cosmos/cosmos-sdk/types.Iterator#0 requests=[]github.com/irismod/service/types.Request#0 requestID=[]byte#0 request=github.com/irismod/service/types.Request#0 bz=[]byte#1 err=error#1
 //@ props C17
 //@ loop 0 invariant pos_in_range: 0 <= iterator_pos && iterator_pos <= itCount(iterator_snap, iterator_pfx)
 //@ loop 0 invariant snapshot: iterator_snap == raw && iterator_pfx == PReqByCtx(params.RequestContextID, params.BatchCounter)
@@ -581,6 +640,7 @@ package keeper
 //@      result0 == jsonEnc__Slice_Request_(reqsByKeyIt(raw, PReqByCtx(ps.RequestContextID, ps.BatchCounter), itCount(raw, PReqByCtx(ps.RequestContextID, ps.BatchCounter)))))
 
 //@ func queryResponses
+//@ vars keeper.queryResponses: ctx=github.com/cosmos/cosmos-sdk/types.Context#0 req=github.com/tendermint/tendermint/abci/types.RequestQuery#0 k=github.com/irismod/service/keeper.Keeper#0 legacyQuerierCdc=*github.com/cosmos/cosmos-sdk/codec.LegacyAmino#0 params=github.com/irismod/service/types.QueryResponsesParams#0 err=error#0 iterator=github.com/cosmos/cosmos-sdk/types.Iterator#0 responses=[]github.com/irismod/service/types.Response#0 response=github.com/irismod/service/types.Response#0 bz=[]byte#0 err=error#1
 //@ props C17
 //@ loop 0 invariant pos_in_range: 0 <= iterator_pos && iterator_pos <= itCount(iterator_snap, iterator_pfx)
 //@ loop 0 invariant snapshot: iterator_snap == raw && iterator_pfx == PRespByCtx(params.RequestContextID, params.BatchCounter)
@@ -589,17 +649,20 @@ package keeper
 //@      result0 == jsonEnc__Slice_Response_(respsIt(raw, PRespByCtx(ps.RequestContextID, ps.BatchCounter), itCount(raw, PRespByCtx(ps.RequestContextID, ps.BatchCounter)))))
 
 //@ func queryEarnedFees
+//@ vars keeper.queryEarnedFees: ctx=github.com/cosmos/cosmos-sdk/types.Context#0 req=github.com/tendermint/tendermint/abci/types.RequestQuery#0 k=github.com/irismod/service/keeper.Keeper#0 legacyQuerierCdc=*github.com/cosmos/cosmos-sdk/codec.LegacyAmino#0 params=github.com/irismod/service/types.QueryEarnedFeesParams#0 err=error#0 fees=github.com/cosmos/cosmos-sdk/types.Coins#0 found=bool#0 bz=[]byte#0 err=error#1
 //@ props C17
 //@ witness fees_ (Slice Coin) := fees
 //@ ensures [C17] same_view_as_grpc: err == NoErr ==> result0 == jsonEnc__Slice_Coin_(fees_) &&
 //@      (forall d Str :: amt(fees_, d) == pfxSum(raw, PEarned(jsonDec_QueryEarnedFeesParams(fld_Opaque_RequestQuery_Data(req)).Provider), d))
 
 //@ func queryParams
+//@ vars keeper.queryParams: ctx=github.com/cosmos/cosmos-sdk/types.Context#0 k=github.com/irismod/service/keeper.Keeper#0 legacyQuerierCdc=*github.com/cosmos/cosmos-sdk/codec.LegacyAmino#0 params=github.com/irismod/service/types.Params#0 bz=[]byte#0 err=error#0
 //@ props C17
 //@ ensures [C17] same_view_as_grpc: err == NoErr ==> result0 == jsonEnc_Params(params)
 
 // ---------------------------------------------------------------- zero-height genesis preparation (C19)
 //@ func (Keeper).RefundServiceFees
+//@ vars (keeper.Keeper).RefundServiceFees: k=github.com/irismod/service/keeper.Keeper#0 ctx=github.com/cosmos/cosmos-sdk/types.Context#0 iterator=github.com/cosmos/cosmos-sdk/types.Iterator#0 requestID=github.com/gogo/protobuf/types.BytesValue#0 request=github.com/irismod/service/types.Request#0 err=error#0
 //@ props C19
 //@ modifies bal
 //@ loop 0 invariant pos_in_range: 0 <= iterator_pos && iterator_pos <= itCount(iterator_snap, iterator_pfx)
@@ -608,6 +671,7 @@ package keeper
 //@ ensures [C19] every_pending_fee_back_to_its_consumer: err == NoErr ==> bal == refundIt(old(bal), raw, PAllAct, itCount(raw, PAllAct))
 
 //@ func (Keeper).RefundEarnedFees
+//@ vars (keeper.Keeper).RefundEarnedFees: k=github.com/irismod/service/keeper.Keeper#0 ctx=github.com/cosmos/cosmos-sdk/types.Context#0 iterator=github.com/cosmos/cosmos-sdk/types.Iterator#0 earnedFee=github.com/cosmos/cosmos-sdk/types.Coin#0 key=[]byte#0 provider=github.com/cosmos/cosmos-sdk/types.AccAddress#0 err=error#0
 //@ props C19 C18
 //@ modifies bal
 //@ requires records_match_their_keys: wfEarned(raw)
@@ -617,6 +681,8 @@ package keeper
 //@ ensures [C19] every_earning_back_to_the_provider_of_its_key: err == NoErr ==> bal == refundEarnedIt(old(bal), raw, PAllEarned, itCount(raw, PAllEarned))
 
 //@ func (Keeper).ResetRequestContextsStateAndBatch
+//@ vars (keeper.Keeper).ResetRequestContextsStateAndBatch: k=github.com/irismod/service/keeper.Keeper#0 ctx=github.com/cosmos/cosmos-sdk/types.Context#0
+//@ vars (keeper.Keeper).IterateRequestContexts: k=github.com/irismod/service/keeper.Keeper#0 ctx=github.com/cosmos/cosmos-sdk/types.Context#0 op=func#0 requestContextID=github.com/tendermint/tendermint/libs/bytes.HexBytes#0 requestContext=github.com/irismod/service/types.RequestContext#0 stop=bool#0 store=github.com/cosmos/cosmos-sdk/types.KVStore#0 iterator=github.com/cosmos/cosmos-sdk/types.Iterator#0 requestContextID=[]byte#0 requestContext=github.com/irismod/service/types.RequestContext#1 stop=bool#1
 //@ props C19
 //@ modifies raw
 //@ loop IterateRequestContexts.0 invariant pos_in_range: 0 <= iterator_pos && iterator_pos <= itCount(iterator_snap, iterator_pfx)
@@ -630,6 +696,7 @@ package keeper
 // ParsePricing: the structural facts every stored Pricing relies on are proved from the body; that the result is a
 // deterministic function of the text (given the token registry) is an assumed clause.
 //@ func (Keeper).ParsePricing
+//@ vars (keeper.Keeper).ParsePricing: k=github.com/irismod/service/keeper.Keeper#0 ctx=github.com/cosmos/cosmos-sdk/types.Context#0 pricing=string#0 p=github.com/irismod/service/types.Pricing#0 err=error#0 rawPricing=github.com/irismod/service/types.RawPricing#0 err=error#1 token=github.com/cosmos/cosmos-sdk/types.DecCoin#0 tokenPrice=github.com/cosmos/cosmos-sdk/types.Coin#0 err=error#2 ft=github.com/irismod/service/types.TokenI#0 priceCoin=github.com/cosmos/cosmos-sdk/types.Coin#1
 //@ props C20 C15 C14 C07
 //@ ensures [C20,C15] exactly_one_price_coin_of_nonnegative_amount: err == NoErr ==> onePriceCoin(p)
 //@ assumes deterministic_function_of_the_text: err == parsePricingErr(pricing) && (err == NoErr ==> p == parsePricing(pricing))
@@ -637,6 +704,7 @@ package keeper
 // ---------------------------------------------------------------- module services (dead in this repository: nothing registers one; reachable through RegisterModuleService)
 // Called by handleMsgCallService right after CreateRequestContext has stored the one-shot context RUNNING and queued its first batch for this block.
 //@ func (Keeper).RequestModuleService
+//@ vars (keeper.Keeper).RequestModuleService: k=github.com/irismod/service/keeper.Keeper#0 ctx=github.com/cosmos/cosmos-sdk/types.Context#0 moduleService=*github.com/irismod/service/types.ModuleService#0 reqContextID=github.com/tendermint/tendermint/libs/bytes.HexBytes#0 consumer=github.com/cosmos/cosmos-sdk/types.AccAddress#0 input=string#0 requestContext=github.com/irismod/service/types.RequestContext#0 found=bool#0 totalPrices=github.com/cosmos/cosmos-sdk/types.Coins#0 err=error#0 err=error#1 requestIDs=[]github.com/tendermint/tendermint/libs/bytes.HexBytes#0 result=string#1 output=string#2 request=github.com/irismod/service/types.Request#0
 //@ props C10 C01 C02
 //@ modifies raw, bal, supply, cblog
 //@ preserves wf: WF(raw)
@@ -652,6 +720,7 @@ package keeper
 
 // ---------------------------------------------------------------- genesis import of one binding (C19: price terms and ownership indexes are rebuilt)
 //@ func (Keeper).SetServiceBindingForGenesis
+//@ vars (keeper.Keeper).SetServiceBindingForGenesis: k=github.com/irismod/service/keeper.Keeper#0 ctx=github.com/cosmos/cosmos-sdk/types.Context#0 svcBinding=github.com/irismod/service/types.ServiceBinding#0 pricing=github.com/irismod/service/types.Pricing#0 err=error#0
 //@ props C19 C15
 //@ modifies raw
 //@ ensures [C19,C15] record_price_terms_and_ownership_indexes_written: err == NoErr ==> raw == wrBind1(old(raw), svcBinding)
